@@ -218,14 +218,14 @@ RetV(s, e) ==
     [] e.op = "swap" /\ ~p.wrote -> <<"C04", "swap returned without writing">>
     [] e.op = "swap" /\ e.v # p.old -> <<"C04", "swap did not return the value it replaced">>
     [] e.op = "swap" /\ ~Live(s, e.v) -> <<"C01", "swap returned a destroyed value">>
-    [] e.op = "cas" /\ p.wrote /\ e.v # p.old -> <<"C05", "successful compare_and_swap did not return the replaced value">>
+    [] e.op = "cas" /\ p.wrote /\ e.v # p.old -> <<"C04+C05", "successful compare_and_swap did not return the replaced value">>
     [] e.op = "cas" /\ ~p.wrote /\ e.v = p.a
          -> <<"C04+C05", "compare_and_swap reports success (result == current, handed back as the replaced value) but stored nothing">>
     [] e.op = "cas" /\ ~p.wrote /\ e.v \notin p.seen
          -> <<"C05", "failed compare_and_swap returned a value that was not stored during the call">>
     [] e.op = "cas" /\ ~Live(s, e.v) -> <<"C01", "compare_and_swap returned a destroyed value">>
     [] e.op = "rcu" /\ ~p.wrote -> <<"C04+C06", "rcu returned (handing back a 'replaced' value) without installing anything">>
-    [] e.op = "rcu" /\ e.v # p.old -> <<"C06", "rcu did not return the value it replaced">>
+    [] e.op = "rcu" /\ e.v # p.old -> <<"C04+C06", "rcu did not return the value it replaced">>
     [] e.op = "rcu" /\ ~Live(s, e.v) -> <<"C01", "rcu returned a destroyed value">>
     [] e.op = "into_inner_c" /\ e.v # p.a -> <<"C04", "into_inner returned something else than the stored value">>
     [] e.op = "into_inner_c" /\ ~Live(s, e.v) -> <<"C01", "into_inner returned a destroyed value">>
